@@ -499,6 +499,8 @@ ITEMS = {
     "cont": ["#define G(x, y) do { x = y; \\", "        F(y); } while (0)"],
     "cont3": ["#define B (b3 + \\", "    b4 + \\", "    b5)"],
     "contU": ["#define B b6 - \\", "-b7"],
+    "contT": ["#define B b10\t\\", "b11"],  # a TAB before the backslash, next line in column 0: two tokens
+    "contN": ["#define B b12\t\\", "+ b13"],
     "contS": ["#define H(x) x \\", "    * A"],
     "qg": ["#ifdef QEMU_GENERATE", "#define A (a3)", "#endif"],
     "qge": ["#ifdef QEMU_GENERATE", "#define F(x) f3(x, \\", "    ctx)", "#else", "#define F(x) f4(x)", "#endif"],
